@@ -331,6 +331,8 @@ func runC11(c *eng.Ctx) {
 		}
 	})
 
+	c.Rule("SYMMETRY", "aggregation.fieldAggregator.Aggregate{a partial series is merged into the series of its own aggregate type}", func() { partialMergeByAggType(c) })
+
 	c.Rule("PASS", "aggregation.DownSampling{the sequential getter is asked for every source slot}", func() { sequentialCursorRules(c) })
 
 	c.Rule("ANCHOR", mfT+".FlushSeries{startAt}", func() { flusherAnchors(c) })
@@ -533,7 +535,11 @@ func aggregateArgumentOrder(c *eng.Ctx) {
 		"tsdb/memdb.merge":                            {fromCall("getOldFloatValue"), fromCall("getCurrentValue"), "stored = the compressed (earlier) value, incoming = the write buffer's (later) value"},
 		"aggregation.DownSamplingMultiSeriesInto":     {loadOfNamedSlice("targetValues"), fromCall("Value"), "stored = the target slot, incoming = the decoded source value"},
 		"aggregation.fieldAggregator.AggregateBySlot": {fromCall("GetValue"), isParam("value"), "stored = the aggregator's slot, incoming = the value handed in"},
+		"aggregation.fieldAggregator.aggregateBySlot": {fromCall("GetValue"), isParam("value"), "stored = the aggregator's slot, incoming = the value handed in"},
 	}
+	// the per-slot fold of the field aggregator lives in AggregateBySlot or in its helper (since F34): one of the two
+	alt := map[string]string{"aggregation.fieldAggregator.AggregateBySlot": "aggregation.fieldAggregator.aggregateBySlot",
+		"aggregation.fieldAggregator.aggregateBySlot": "aggregation.fieldAggregator.AggregateBySlot"}
 	n := 0
 	seen := map[string]bool{}
 	for _, s := range p.SitesInProgram(eng.AnyCallTo("series/field.AggType.Aggregate")) {
@@ -552,7 +558,12 @@ func aggregateArgumentOrder(c *eng.Ctx) {
 			"Aggregate receives (stored, incoming): "+r.what, "passes ("+p.Desc(a[0])+", "+p.Desc(a[1])+")")
 	}
 	for k := range table {
-		c.Check(seen[k], "site-exists:"+k, nil, nil, "the classified call site "+k+" exists", "no call of AggType.Aggregate in "+k)
+		if o, ok := alt[k]; ok && (seen[o] || k > o && !seen[k]) {
+			if seen[o] {
+				continue
+			}
+		}
+		c.Check(seen[k] || seen[alt[k]], "site-exists:"+k, nil, nil, "the classified call site "+k+" exists", "no call of AggType.Aggregate in "+k)
 	}
 	if n < 4 {
 		c.Undecided("expected >= 4 call sites of AggType.Aggregate, found %d", n)
@@ -720,4 +731,43 @@ func sequentialCursorRules(c *eng.Ctx) {
 		}
 	}
 	c.Check(n >= 2, "cursor-readers-found", nil, nil, "the readers of the TSD cursor were examined", fmt.Sprintf("%d has-value sites", n))
+}
+
+// partialMergeByAggType: the result of a field aggregator has one primitive series per aggregate type (Sum, Max, …) and
+// is merged upstream by fieldAggregator.Aggregate (leaf reduce, intermediate, root).  A raw value belongs to every
+// aggregate type (AggregateBySlot); a value of a PARTIAL series belongs to the series of that series' own type only.
+// Necessary condition: Aggregate asks the incoming primitive iterator for its AggType() and the target series it folds
+// into depends on the answer.
+func partialMergeByAggType(c *eng.Ctx) {
+	p := c.P
+	f := c.Fn("aggregation.fieldAggregator.Aggregate")
+	var typ []eng.Site
+	for _, s := range p.Sites(f, invokeOn("", "AggType")) {
+		if cl := s.Instr.(*ssa.Call); cl.Common().IsInvoke() && strings.HasSuffix(cl.Common().Value.Type().String(), "series.PrimitiveIterator") {
+			typ = append(typ, s)
+		}
+	}
+	c.Check(len(typ) > 0, "asks-the-incoming-series-for-its-type", nil, f,
+		"Aggregate reads the aggregate type of every incoming primitive series: with two functions on one field (select sum(f), max(f)) the Sum series must not be added into the Max series and vice versa — every merge step would otherwise inflate both",
+		"pIt.AggType() is never consulted: every incoming value is folded into every aggregate type of the target")
+	if len(typ) == 0 {
+		return
+	}
+	// the series selected for the fold depends on that type
+	dep := false
+	for _, b := range eng.BlocksT(f) {
+		for _, in := range b.Instrs {
+			switch x := in.(type) {
+			case *ssa.IndexAddr:
+				if eng.DependsOnField(x.X, "aggregation.fieldAggregator.fieldSeriesList") && eng.DependsOn(x.Index, func(v ssa.Value) bool { return v == typ[0].Instr.(ssa.Value) }) {
+					dep = true
+				}
+			case *ssa.If:
+				if eng.DependsOn(x.Cond, func(v ssa.Value) bool { return v == typ[0].Instr.(ssa.Value) }) {
+					dep = true
+				}
+			}
+		}
+	}
+	c.Check(dep, "fold-target-depends-on-the-type", typ[0].Instr, f, "which series of the target receives the value is decided by the incoming series' aggregate type", "")
 }
